@@ -332,6 +332,7 @@ func cmdRun(args []string) int {
 	workers := runtime.NumCPU()
 	var maxPaths int64
 	xvalN := 0
+	var xsolvers []string
 	module := "harness"
 	for _, a := range args[1:] {
 		if strings.HasPrefix(a, "-w=") {
@@ -340,6 +341,10 @@ func cmdRun(args []string) int {
 		}
 		if strings.HasPrefix(a, "-max=") {
 			maxPaths, _ = strconv.ParseInt(a[5:], 10, 64)
+			continue
+		}
+		if strings.HasPrefix(a, "-x=") {
+			xsolvers = strings.Split(a[3:], ",")
 			continue
 		}
 		if strings.HasPrefix(a, "-prof=") {
@@ -398,7 +403,10 @@ func cmdRun(args []string) int {
 		}
 		return 0
 	}
-	st := vm.Explore(vm.Config{Machine: ld.m, Entry: entry, Harness: name, Workers: workers, Params: params, MaxPaths: maxPaths, KnownOpen: kf.openMap(), Concrete: concrete})
+	st := vm.Explore(vm.Config{Machine: ld.m, Entry: entry, Harness: name, Workers: workers, Params: params, MaxPaths: maxPaths, KnownOpen: kf.openMap(), Concrete: concrete, XSolvers: xsolvers})
+	if len(xsolvers) > 0 {
+		fmt.Printf("cross-check: %v mirrored queries=%d disagreements=%d\n", xsolvers, st.XQueries, st.XDisagree)
+	}
 	printStats(st, ld.loadS)
 	for i, f := range st.Failures {
 		if i < 10 {
